@@ -828,35 +828,58 @@ theorem Settled.of_same {lx : Bool} {m' m2 : Mem} (h : Same m' m2) (s : Settled 
    by rw [h.frames, h.vec]; exact s.vec, by rw [h.frames, h.pvec]; exact s.pvec, by rw [h.frames, h.time]; exact s.time,
    fun hl => by rw [h.frames, h.lexDocs]; exact s.lex hl⟩
 
-/-- after `apply_records` (engine attached) and the index step that follows it in `commit` / `recover_wal` -/
-theorem applied_rd (lx : Bool) (m m1 : Mem) (δ : Delta) (ft : Nat) (hok : AllOk m.frames.length m.pending) (hr : RdOk lx m)
-    (h1 : applyRecords m m.pending true = some (m1, δ)) :
-    Settled lx (if δ.nonEmpty = true then m1.rebuildIndexes δ.embs δ.inserted ft else m1.flushTantivy ft) := by
+/-- the tail `persist_sketch_track; footer; record_checkpoint` of `recover_wal` / `vacuum` -/
+theorem settle_tail (lx : Bool) (R : Mem) (ft : Nat) (s : Settled lx R) : RdOk lx ((R.persistSketch.bumpFooter ft).checkpoint) :=
+  s.rdOk rfl rfl rfl rfl rfl rfl rfl
+
+/-- after `apply_records` (engine attached) and the index step that follows it in `commit` / `recover_wal`;
+    `X` = the applied handle, possibly with switches flipped that no read path looks at (`enableVecForEmbs`) -/
+theorem applied_rdX (lx : Bool) (m m1 : Mem) (δ : Delta) (ft : Nat) (hok : AllOk m.frames.length m.pending) (hr : RdOk lx m)
+    (h1 : applyRecords m m.pending true = some (m1, δ)) (X : Mem)
+    (xf : X.frames = m1.frames) (xv : X.vec = m1.vec) (xpv : X.pVec = m1.pVec) (xt : X.time = m1.time)
+    (xld : X.lexDocs = m1.lexDocs) (xe : X.engine = m1.engine) (xle : X.lexEnabled = m1.lexEnabled)
+    (xtd : X.tantivyDirty = m1.tantivyDirty) :
+    Settled lx (if δ.nonEmpty = true then X.rebuildIndexes δ.embs δ.inserted ft else X.flushTantivy ft) := by
   obtain ⟨hd1, hv1, he1, hq1, hp1, ht1, _, hen1, hle1⟩ :=
     applyRecords_rd m m.pending true m1 δ hok hr.dense hr.vec h1
   obtain ⟨hx1, hk1⟩ := applyRecords_lex m m.pending m1 δ hr.eng h1
+  have hdX : DenseF X.frames := by rw [xf]; exact hd1
   by_cases hne : δ.nonEmpty = true
   · rw [if_pos hne]
     obtain ⟨rf, re, rl, _, rv, rpv, rt, rlx⟩ :=
-      rebuildIndexes_rd m1 δ.embs δ.inserted ft (by rw [hle1]; exact hr.lexOn) hd1 he1
-    refine ⟨by rw [rf]; exact hd1, re, rl, by rw [rf]; exact rv, by rw [rf]; exact rpv, by rw [rf]; exact rt, ?_⟩
+      rebuildIndexes_rd X δ.embs δ.inserted ft (by rw [xle, hle1]; exact hr.lexOn) hdX (by rw [xf]; exact he1)
+    refine ⟨by rw [rf]; exact hdX, re, rl, by rw [rf]; exact rv, by rw [rf]; exact rpv, by rw [rf]; exact rt, ?_⟩
     intro hl
     rw [rf]
     refine rlx ?_
     rcases hr.lex hl with h0 | h0
-    · exact Or.inl (hx1 h0).1
-    · exact Or.inr (Or.inr (hk1 h0))
+    · exact Or.inl (by rw [xtd]; exact (hx1 h0).1)
+    · exact Or.inr (Or.inr (by rw [xld, xf]; exact hk1 h0))
   · rw [if_neg hne]
     have hnf : δ.nonEmpty = false := by cases hq : δ.nonEmpty <;> simp_all
     obtain ⟨qf, ql, _⟩ := hq1 hnf
-    refine Settled.of_same (flushTantivy_same m1 ft) ⟨hd1, by rw [hen1]; exact hr.eng, by rw [hle1]; exact hr.lexOn, hv1, ?_, ?_, ?_⟩
-    · rw [hp1, qf]; exact hr.pvec
-    · rw [ht1, qf]; exact hr.time
+    refine Settled.of_same (flushTantivy_same X ft)
+      ⟨hdX, by rw [xe, hen1]; exact hr.eng, by rw [xle, hle1]; exact hr.lexOn, by rw [xf, xv]; exact hv1, ?_, ?_, ?_⟩
+    · rw [xpv, xf, hp1, qf]; exact hr.pvec
+    · rw [xt, xf, ht1, qf]; exact hr.time
     · intro hl
-      rw [ql, qf]
+      rw [xld, xf, ql, qf]
       rcases hr.lex hl with h0 | h0
       · have := (hx1 h0).2; rw [hnf] at this; cases this
       · exact h0
+
+theorem applied_rd (lx : Bool) (m m1 : Mem) (δ : Delta) (ft : Nat) (hok : AllOk m.frames.length m.pending) (hr : RdOk lx m)
+    (h1 : applyRecords m m.pending true = some (m1, δ)) :
+    Settled lx (if δ.nonEmpty = true then m1.rebuildIndexes δ.embs δ.inserted ft else m1.flushTantivy ft) :=
+  applied_rdX lx m m1 δ ft hok hr h1 m1 rfl rfl rfl rfl rfl rfl rfl rfl
+
+theorem enableVecForEmbs_eqs (ma : Mem) (embs : List VecEnt) :
+    (ma.enableVecForEmbs embs).frames = ma.frames ∧ (ma.enableVecForEmbs embs).vec = ma.vec ∧
+    (ma.enableVecForEmbs embs).pVec = ma.pVec ∧ (ma.enableVecForEmbs embs).time = ma.time ∧
+    (ma.enableVecForEmbs embs).lexDocs = ma.lexDocs ∧ (ma.enableVecForEmbs embs).engine = ma.engine ∧
+    (ma.enableVecForEmbs embs).lexEnabled = ma.lexEnabled ∧ (ma.enableVecForEmbs embs).tantivyDirty = ma.tantivyDirty := by
+  unfold Mem.enableVecForEmbs
+  split <;> exact ⟨rfl, rfl, rfl, rfl, rfl, rfl, rfl, rfl⟩
 
 theorem commitFromRecords_rd (lx : Bool) (m m' : Mem) (ft : Nat) (hi : Inv m) (hr : RdOk lx m)
     (h : m.commitFromRecords ft = some m') : RdOk lx m' := by
@@ -899,7 +922,7 @@ theorem appendPut_rd (lx : Bool) (m : Mem) (a : PutArgs) (sup reuse : Option Nat
     RdOk lx (m.appendPut a sup reuse) := by
   refine ⟨hr.dense, hr.eng, hr.lexOn, hr.vec, hr.pvec, hr.time, fun hl => ?_⟩
   show HasIdxInsert (m.pending ++ putRecords m.seq a sup reuse) ∨
-    ∀ x ∈ (if (a.ii && m.engine && a.st) = true then m.lexDocs ++ [m.seq + 1] else m.lexDocs), isActive m.frames x = true
+    ∀ x ∈ (if (a.ii && m.engine && a.st) = true then m.lexDocs ++ [m.nextFrameId] else m.lexDocs), isActive m.frames x = true
   rcases hr.lex hl with h0 | h0
   · exact Or.inl (hasIdx_append_left _ _ h0)
   · by_cases hinst : (a.ii && m.engine && a.st) = true
@@ -923,11 +946,11 @@ theorem putTail_rd (lx : Bool) (m : Mem) (a : PutArgs) (sup reuse : Option Nat) 
       · exact allOk_putRecords _ _ _ _ _ hsup hreu r hr0
     · show m.pendingInserts + (putRecords m.seq a sup reuse).length = countInserts (m.pending ++ putRecords m.seq a sup reuse)
       rw [countInserts_append, countInserts_putRecords, hi.pi]
-  have hfin : RdOk lx (((m.appendPut a sup reuse).afterAppend t).addCards a.nc (m.seq + 1)) :=
-    RdOk.of_same (addCards_same _ _ _) (afterAppend_rd lx _ t hi1 (appendPut_rd lx m a sup reuse hr))
+  have hfin : ∀ k, RdOk lx (((m.appendPut a sup reuse).afterAppend t).addCards a.nc k) := fun k =>
+    RdOk.of_same (addCards_same _ _ k) (afterAppend_rd lx _ t hi1 (appendPut_rd lx m a sup reuse hr))
   unfold Mem.putTail
   -- every rejection (capacity checks) leaves the handle as it was
-  repeat' (first | exact hr | exact hfin | split)
+  repeat' (first | exact hr | exact hfin _ | split)
 
 theorem putCore_rd (lx : Bool) (m : Mem) (a : PutArgs) (sup reuse : Option Nat) (t : Trace) (hi : Inv m) (hr : RdOk lx m)
     (hsup : ∀ x, sup = some x → x < m.frames.length) (hreu : ∀ x, reuse = some x → x < m.frames.length) :
@@ -1039,8 +1062,8 @@ theorem recoverWal_rd (lx : Bool) (m1 : Mem) (ft : Nat) (hok : AllOk m1.frames.l
   · split
     · exact hr
     · rename_i ma δ h1
-      have s := applied_rd lx m1 ma δ ft hok hr h1
-      exact s.rdOk rfl rfl rfl rfl rfl rfl rfl
+      obtain ⟨e1, e2, e3, e4, e5, e6, e7, e8⟩ := enableVecForEmbs_eqs ma δ.embs
+      exact settle_tail lx _ ft (applied_rdX lx m1 ma δ ft hok hr h1 (ma.enableVecForEmbs δ.embs) e1 e2 e3 e4 e5 e6 e7 e8)
 
 theorem loadTracks_same (m2 : Mem) : Same m2.loadTracks m2 :=
   ⟨rfl, rfl, rfl, rfl, rfl, rfl, rfl, [], onlyLex_nil, by simp [Mem.loadTracks]⟩
@@ -1151,7 +1174,7 @@ theorem vacuum_rd (lx : Bool) (m : Mem) (a b : Nat) (hi : Inv m) (hr : RdOk lx m
   have hv := view_compact (m.commit a).1.frames 0
   have s := rebuildAll_settled (m.commit a).1.compactFrames b hc.lexOn
     (denseF_of_view_eq _ _ hv hc.dense)
-  exact s.rdOk rfl rfl rfl rfl rfl rfl rfl
+  exact settle_tail true _ b s
 
 theorem rebuild_reset_rd (X : Mem) (ft : Nat) (hle : X.lexEnabled = true) (hd : DenseF X.frames) :
     RdOk true (X.rebuildIndexes [] [] ft).resetWal :=
@@ -1162,6 +1185,13 @@ theorem doctorRebuild_rd (lx : Bool) (m2 : Mem) (rv : Bool) (ft : Nat) (hr : RdO
   unfold Mem.doctorRebuild
   -- whatever is done to the vector fields first, the frame table and the lexical switch are m2's
   repeat' (first | exact rebuild_reset_rd _ ft hr.lexOn hr.dense | split)
+
+theorem resetWal_rd (lx : Bool) (X : Mem) (hq : Quiet X) (hr : RdOk lx X) : RdOk lx X.resetWal :=
+  ⟨hr.dense, hr.eng, hr.lexOn, hr.vec, hr.pvec, hr.time, fun hl => by
+    rcases hr.lex hl with h0 | h0
+    · obtain ⟨r, hr0, e, he, _⟩ := h0
+      rw [hq.lex r hr0] at he; cases he
+    · exact Or.inr h0⟩
 
 theorem doctor_rd (lx : Bool) (m : Mem) (vac rt rl rv : Bool) (a b c d : Nat) (hi : Inv m) (hr : RdOk lx m) :
     RdOk lx (m.doctor vac rt rl rv a b c d).1 := by
@@ -1189,13 +1219,12 @@ theorem doctor_rd (lx : Bool) (m : Mem) (vac rt rl rv : Bool) (a b c d : Nat) (h
       · exact this.weaken
       · exact this
     · exact h1
-  have hd2 := dropHandle_inv _ c h2.1.inv
+  -- the final WAL cleanup
+  have h3q := (resetWal_quiet _ h2.1).1
+  have h3 := resetWal_rd lx _ h2.1 h2.2
+  have hd3 := dropHandle_inv _ c h3q.inv
   unfold Mem.doctor
-  first
-    | exact openFrom_rd lx _ d hd2.ok (dropHandle_rd lx _ c h2.1.inv h2.2)
-    | (split
-       · exact openFrom_rd lx _ d hd2.ok (dropHandle_rd lx _ c h2.1.inv h2.2)
-       · exact openFrom_rd lx _ d hd.ok (dropHandle_rd lx m a hi hr))
+  exact openFrom_rd lx _ d hd3.ok (dropHandle_rd lx _ c h3q.inv h3)
 
 /-! ### every operation -/
 
